@@ -2,7 +2,7 @@
 # tools/lane.sh <k> <patch.diff> <ID> [<ID> ...]
 # Like try_seeded.sh, but in a private lane: a clone of /repo at HEAD under /tmp/lane<k>/repo and a copy of
 # /verif's working tree under /tmp/lane<k>/verif whose harness and driver point at that clone. /repo itself is
-# not touched, so several lanes (and checks against /repo) can run at the same time. Development aid only:
+# not touched (LANE_SRC=<dir> takes the machinery from a frozen copy of /verif instead of the working tree), so several lanes (and checks against /repo) can run at the same time. Development aid only:
 # nothing registered in MANIFEST.json uses it. Remove a lane with: rm -rf /tmp/lane<k>
 set -u
 k="$1"; patch=$(realpath "$2"); shift 2
@@ -14,7 +14,7 @@ else
   git clone -q /repo $L/repo || exit 2
 fi
 mkdir -p $L/verif
-rsync -a --delete --exclude target --exclude work --exclude .git --exclude replays --exclude evidence /verif/ $L/verif/
+rsync -a --delete --exclude target --exclude work --exclude .git --exclude replays --exclude evidence ${LANE_SRC:-/verif}/ $L/verif/
 mkdir -p $L/verif/evidence
 sed -i "s#path = \"/repo\"#path = \"$L/repo\"#" $L/verif/harness/Cargo.toml $L/verif/harness/sendsync/Cargo.toml
 sed -i "s#^REPO = \"/repo\"#REPO = \"$L/repo\"#; s#panicked at (/repo/src/#panicked at ($L/repo/src/#" $L/verif/vlib/core.py
